@@ -911,6 +911,25 @@ pub fn t2_pairs(cfg: &Cfg) -> Vec<T> {
                 }
             }
         }
+        // concat of a slice with a concat of a slice and a leaf, both nestings (slice merging and
+        // re-association rules interact here); all slice parameter pairs at narrow widths
+        if w <= 8 {
+            let third = leaves(Ty::Bv(w), &red);
+            for a in syms.iter() {
+                for b in syms.iter().take(if w <= 4 { 2 } else { 1 }) {
+                    for (h1, l1) in slice_params(w) {
+                        for (h2, l2) in slice_params(w) {
+                            let sa = T::Slice(h1, l1, Box::new(a.clone()));
+                            let sb = T::Slice(h2, l2, Box::new(b.clone()));
+                            for c in third.iter().take(3) {
+                                out.push(T::bin(Bin::Concat, sa.clone(), T::bin(Bin::Concat, sb.clone(), c.clone())));
+                                out.push(T::bin(Bin::Concat, T::bin(Bin::Concat, sa.clone(), sb.clone()), c.clone()));
+                            }
+                        }
+                    }
+                }
+            }
+        }
         // eq / and with a concat on either side and a literal / symbol on the other
         for pw in cfg.widths.iter().cloned() {
             let la = leaves(Ty::Bv(w), &red);
